@@ -183,3 +183,185 @@ def validate_case(cls, proper=False):
             v = N.sample_value(rng)
         return {'self': N.describe(t), 'val': v}
     return gen
+
+
+# ---------------------------------------------------------------- values of generated classes
+import stone.backends.python_rsrc.stone_base as bb
+
+
+def corpus_validators(kinds=None):
+    import spec.corpus as corpus
+    out = []
+    for e, v in corpus.validators():
+        if kinds is None or isinstance(v, kinds):
+            out.append(v)
+    for e, c in corpus.struct_classes():
+        for name, fv in c._all_fields_:
+            if kinds is None or isinstance(fv, kinds):
+                out.append(fv)
+    for e, c in corpus.union_classes():
+        for tag, tv in c._tagmap.items():
+            if kinds is None or isinstance(tv, kinds):
+                out.append(tv)
+    return out
+
+
+def subclasses_in_corpus(cls):
+    out = [cls]
+    for k in cls.__subclasses__():
+        out.extend(subclasses_in_corpus(k))
+    return out
+
+
+def gen_gvalue(rng, t, depth=0):
+    """a value for validator t (any kind, including generated struct / union
+    types), valid or one step away from valid"""
+    if isinstance(t, bv.Nullable):
+        if rng.random() < 0.3:
+            return None
+        return gen_gvalue(rng, t.validator, depth + 1)
+    if isinstance(t, bv.List):
+        n = rng.choice([0, 1, 2])
+        items = [gen_gvalue(rng, t.item_validator, depth + 1) for _ in range(n)]
+        return tuple(items) if rng.random() < 0.15 else items
+    if isinstance(t, bv.Map):
+        return dict(('k%d' % i, gen_gvalue(rng, t.value_validator, depth + 1)) for i in range(rng.choice([0, 1, 2])))
+    if isinstance(t, bv.Struct):
+        if rng.random() < 0.08:
+            return rng.choice([None, 3, 'x', object()])
+        if isinstance(t, bv.StructTree) and rng.random() < 0.85:
+            cls = rng.choice(list(t.definition._pytype_to_tag_and_subtype_))
+        else:
+            cls = rng.choice(subclasses_in_corpus(t.definition))
+        return gen_instance(rng, cls, depth)
+    if isinstance(t, bv.Union):
+        if rng.random() < 0.08:
+            return rng.choice([None, 3, 'x', object()])
+        return gen_union(rng, t.definition, depth)
+    return gen_value_for(rng, t, depth)
+
+
+def gen_instance(rng, cls, depth=0):
+    o = cls()
+    for name, fv in cls._all_fields_:
+        r = rng.random()
+        slot = '_%s_value' % name
+        a = getattr(cls, name)
+        optional = a.nullable or a.default is not bb.NO_DEFAULT
+        if depth > 3 or (optional and r < 0.45) or (not optional and r < 0.07):
+            continue
+        v = gen_gvalue(rng, fv, depth + 1)
+        if v is None:
+            continue
+        object.__setattr__(o, slot, v)
+    if rng.random() < 0.03 and cls._all_fields_:
+        # an instance with a missing storage slot (created without __init__)
+        o2 = object.__new__(cls)
+        return o2
+    return o
+
+
+def gen_union(rng, cls, depth=0):
+    tags = sorted(cls._tagmap)
+    tag = rng.choice(tags)
+    tv = cls._tagmap[tag]
+    o = object.__new__(cls)
+    if isinstance(tv, bv.Void):
+        val = None if rng.random() < 0.9 else 1
+    elif depth > 3:
+        val = None
+    else:
+        val = gen_gvalue(rng, tv, depth + 1)
+    object.__setattr__(o, '_tag', tag if rng.random() < 0.95 else rng.choice([None, 'nope']))
+    object.__setattr__(o, '_value', val)
+    return o
+
+
+def gvalidate_case(kinds):
+    """(self=validator of the corpus of the given kinds, val=value for it)"""
+    def gen(rng):
+        t = rng.choice(corpus_validators(kinds))
+        v = gen_gvalue(rng, t) if rng.random() < 0.85 else rng.choice([None, 1, 'a', [], {}])
+        return {'self': N.describe(t), 'val': desc_value2(v)}
+    return gen
+
+
+def desc_value2(v):
+    d = N.describe_generated(v, 0, {})
+    if d is not None:
+        return d
+    if isinstance(v, list):
+        return {'k': 'list', 'items': [desc_value2(x) for x in v]}
+    if isinstance(v, tuple):
+        return {'k': 'tuple', 'items': [desc_value2(x) for x in v]}
+    if isinstance(v, dict):
+        return {'k': 'dict', 'items': [[desc_value2(a), desc_value2(b)] for a, b in v.items()]}
+    if type(v) is object:
+        return {'k': 'other'}
+    return desc_value(v)
+
+
+def serializer_desc():
+    return {'k': 'obj', 'cls': 'stone.backends.python_rsrc.stone_serializers:StoneToPythonPrimitiveSerializer',
+            'slots': {'caller_permissions': {'k': 'obj', 'cls': 'stone.backends.python_rsrc.stone_serializers:CallerPermissionsDefault', 'slots': {}, 'id': 2},
+                      '_alias_validators': {'k': 'dict', 'items': []}, '_for_msgpack': {'k': 'bool', 'v': False},
+                      '_old_style': {'k': 'bool', 'v': False}, 'should_redact': {'k': 'bool', 'v': False}}, 'id': 1}
+
+
+def encode_case(kinds=None, value_kind=None):
+    def gen(rng):
+        import spec.corpus as corpus
+        corpus.load()
+        t = rng.choice(corpus_validators(kinds))
+        v = gen_gvalue(rng, t)
+        return {'self': serializer_desc(), 'validator': N.describe(t), 'value': desc_value2(v)}
+    return gen
+
+
+def _perm_desc():
+    return {'k': 'obj', 'cls': 'stone.backends.python_rsrc.stone_serializers:CallerPermissionsDefault', 'slots': {}, 'id': 2}
+
+
+def attribute_case(mode):
+    def gen(rng):
+        import spec.corpus as corpus
+        e, cls = rng.choice(corpus.struct_classes())
+        if not cls._all_fields_:
+            e, cls = rng.choice([x for x in corpus.struct_classes() if x[1]._all_fields_])
+        k = rng.randrange(len(cls._all_fields_))
+        name, fv = cls._all_fields_[k]
+        a = getattr(cls, name)
+        inst = gen_instance(rng, rng.choice(subclasses_in_corpus(cls)), 1)
+        d = {'self': N.describe(a), 'instance': desc_value2(inst)}
+        if mode == 'get':
+            d['owner'] = N.describe(cls)
+        elif mode == 'set':
+            v = gen_gvalue(rng, fv, 1) if rng.random() < 0.8 else rng.choice([None, 1, 'a', [], 2.5])
+            d['value'] = desc_value2(v)
+        return d
+    return gen
+
+
+def union_init_case(rng):
+    import spec.corpus as corpus
+    e, cls = rng.choice(corpus.union_classes())
+    tags = sorted(cls._tagmap)
+    tag = rng.choice(tags + ['nope'])
+    tv = cls._tagmap.get(tag)
+    if tv is None or rng.random() < 0.25:
+        v = rng.choice([None, 1, 'a', []])
+    else:
+        v = gen_gvalue(rng, tv, 1)
+    return {'self': {'k': 'gunion', 'cls': e}, 'tag': N.describe(tag), 'value': desc_value2(v)}
+
+
+def union_tag_case(rng):
+    import spec.corpus as corpus
+    e, cls = rng.choice(corpus.union_classes())
+    tag = rng.choice(sorted(cls._tagmap) + ['nope', None])
+    return {'cls': {'k': 'gclass', 'expr': e}, 'tag': N.describe(tag), 'caller_permissions': _perm_desc()}
+
+
+def struct_default_case(rng):
+    t = rng.choice(corpus_validators((bv.Struct,)))
+    return {'self': N.describe(t)}
